@@ -27,6 +27,10 @@ RULE = (
     "ues at the BER and 32-bit boundaries, decimal-prefix sibling roots. Walks of one client "
     "pass the SAME root list object every time; a list that differs after a walk is a violati"
     "on."
+    ' The documented fetcher= argument (a pacing wrapper around the public multigetnext): sin'
+    'gle roots exact, several roots for termination and soundness. sorted() of the yielded Va'
+    'rBinds reproduces the OID order. One process walks a subtree and then a subtree containi'
+    'ng it (and the reverse) on the same and on new clients.'
 )
 ASSUMPTIONS = [
     "reference agent vf/agent.py is RFC 3416 conformant (self-checked codec, every witness carries the wire log)",
